@@ -337,6 +337,8 @@ def system_model(ctx):
                 return ('indexer', host)
         me2 = SymObj(ctx.fn(SYS, 'System'), {}, 'self')
         ev = _ev(ctx, SYS, {'Box': mkBox, 'Atoms': mkAtoms, 'System': _SysG(), 'aslist': lambda v: (list(v) if isinstance(v, (list, tuple)) else [v])})
+        import copy as _copy
+        m_before = _copy.deepcopy(m)
         try:
             q = [x for x in ev.run_fn(init, [me2], {'model': m}) if x.done == 'return']
             ctx.need(len(q) == 1, 'System(model=...) does not reduce to one path (%s)' % tag)
@@ -346,6 +348,7 @@ def system_model(ctx):
         except Opaque as e:
             raise AnalysisError('System(model=) (%s): %s' % (tag, e))
         ctx.need('atoms' in made, 'System(model=...) does not build its atoms from the model (%s)' % tag)
+        ctx.ob('SYSTEM-MODEL', SYS + '::System.__init__', '%s: reading leaves the model object as it was given (read twice, or read and then written out, it is still the same model)' % tag, m == m_before, node=init, key=tag + ' read keeps model')
         e1 = {'pbc': me2.attrs.get('_System__pbc'), 'symbols': me2.attrs.get('_System__symbols'), 'masses': me2.attrs.get('_System__masses')}
         view = made['atoms'].view
         bad = [k for k in props if k not in view or np.shape(view[k]) != np.shape(props[k]) or not all(sp.simplify(a_ - b_) == 0 for a_, b_ in zip(np.ravel(view[k]), np.ravel(props[k])))]
@@ -479,7 +482,9 @@ def run(ctx):
     def _precedence(c):
         _c09._MOD[0] = c.mod(UC)
         _c09.precedence(c)
-    ctx.run_rules([uc_model, box_model, atoms_model, system_model, ec_model, fmt, lambda c: construct_lists(c, 'SYSTEM-MODEL'), _ec_normalized, _precedence,
+    # properties stored box-relative ('scaled') are converted by the cell when written and when read: the conversion pair of C01, any number of leading axes
+    from .c01 import convert as box_convert
+    ctx.run_rules([uc_model, box_model, atoms_model, system_model, ec_model, fmt, lambda c: construct_lists(c, 'SYSTEM-MODEL'), _ec_normalized, _precedence, box_convert,
                    lambda c: __import__('amverif.lints', fromlist=['x']).fresh_results(c, 'UC-MODEL', UC, floor=9, what='a value computed from the working units in force at the time of the call (a model is written under one set of working units and read under another)'),
                    # a value written without a unit, or a single number, goes through the same writer: array-like in, plain Python values in the model
                    lambda c: __import__('amverif.lints', fromlist=['x']).arraylike(c, 'ARRAY-LIKE', UC, floor=4, extra_converters=('get_in_units', 'set_in_units')),
